@@ -6,7 +6,7 @@ VERIF = U.VERIF
 BUILD = os.path.join(VERIF, "build")
 
 VERIF_FAIL = [
-    r"postcondition not satisfied", r"precondition not satisfied", r"precondition not met", r"assertion failed", r"assertion failure",
+    r"postcondition not satisfied", r"precondition not satisfied", r"precondition not met", r"requires not satisfied", r"assertion failed", r"assertion failure",
     r"invariant not satisfied", r"possible arithmetic (under|over)flow", r"possible bit shift (under|over)flow",
     r"possible division by zero", r"decreases not satisfied", r"could not prove termination", r"loop invariant",
     r"unreachable", r"panic", r"possible truncation", r"failed to satisfy", r"may fail to meet", r"cannot prove",
